@@ -3,7 +3,9 @@
 //      (MaxInt) on objectives whose Newton step rounds away while the residual stays above epsilon
 //      (x^2 - a with a ~ 1e10 .. 1e13 from x0 = 1).  A counting hook (objective evaluations) ends a run that spins:
 //      outcome "deadline" without waiting for the wall clock.  The iterates (hook) and the step vector (InSitu.T1)
-//      are logged and replayed bit-exactly against ModelNewton.nstep_loop (CorrNewton.NS).
+//      are logged and replayed bit-exactly against ModelNewton.nstep_loop (CorrNewton.NS).  RunMin ("newton-min-stall",
+//      line-search branch) has the stagnation test too since the repair of F-C20-NEWTON-MIN-LS-STALL: its fixed-point
+//      spin ("hangstate:newton-fixed-point") is no longer a listed finding.
 //  (2) gj stream (--extra gj): gaussJordan.Run on both paths (DenseFloat64 fast path / generic Real64 path), both
 //      triangular flags, a square n x n, x with xr rows, b with bl entries for every (xr, bl) around n -> CorrNewton.GJ,
 //      plus a property-level oracle independent of the model (invalid shape accepted / receiver changed on rejection).
